@@ -194,6 +194,7 @@ pub fn describe_column(
     c: usize,
     cfg: &str,
     stats_level: u8,
+    tci: usize,
     tr: &mut Shards,
     cnt: &mut Counters,
 ) -> Result<(), String> {
@@ -290,6 +291,8 @@ pub fn describe_column(
             "op": "new", "ty": format!("{:?}", field.data_type()), "leaf": format!("{lt:?}"), "phys": format!("{}", cd.physical_type()),
             "sort_order": format!("{:?}", cd.sort_order()), "ord": ord, "fw": fw, "utf8": utf8, "stats": stats_level, "cfg": cfg, "rg": g, "col": c,
             "rep": cd.max_rep_level() > 0,
+            "dictin": matches!(field.data_type(), DataType::Dictionary(..)),
+            "tci": tci,
             "badec": cd.physical_type() == PhysType::BYTE_ARRAY && matches!(lt, DataType::Decimal128(..) | DataType::Decimal256(..) | DataType::Decimal64(..) | DataType::Decimal32(..)),
         }));
         let mut chunk_lens: std::collections::BTreeSet<usize> = Default::default();
@@ -477,9 +480,45 @@ fn arrow_file(rng: &mut Rng, t: &DataType, max_rows: usize, tr: &mut Shards, cnt
     let p = P::random(rng, n);
     let nullable = rng.chance(75) || matches!(t, DataType::Dictionary(..));
     let a = values::column(rng, t, n, nullable);
+    let cuts = [rng.below(n + 1), rng.below(n + 1)];
+    write_and_describe(a, nullable, &p, cuts, tr, cnt);
+}
+
+/// directed inputs: shapes that random generation meets rarely
+fn directed(rng: &mut Rng, tr: &mut Shards, cnt: &mut Counters) {
+    use arrow_array::types::Int16Type;
+    let base = |rng: &mut Rng| {
+        let mut p = P::random(rng, 8);
+        p.stats = 2;
+        p.maxrg = None;
+        p.oi_off = false;
+        p
+    };
+    // a dictionary whose values repeat, distinct counts requested
+    let dict_vals: ArrayRef = Arc::new(Int32Array::from(vec![7, 7, 9, 7]));
+    let keys = Int16Array::from(vec![Some(0), Some(1), Some(2), None, Some(3), Some(1)]);
+    let d: ArrayRef = Arc::new(DictionaryArray::<Int16Type>::new(keys, dict_vals));
+    let mut p = base(rng);
+    p.ndv = true;
+    write_and_describe(d, true, &p, [0, 0], tr, cnt);
+    // ascending strings whose UTF-8 aware truncation is not monotone, one value per page
+    let strs: ArrayRef = Arc::new(StringArray::from(vec!["b", "bb", "b\u{e9}", "b\u{800}", "b\u{800}z", "c"]));
+    for l in [1usize, 2, 3] {
+        let mut p = base(rng);
+        p.page_rows = 1;
+        p.batch = 1;
+        p.trunc_ci = Some(l);
+        p.trunc_stats = Some(l);
+        p.hdr = true;
+        write_and_describe(strs.clone(), false, &p, [0, 0], tr, cnt);
+    }
+}
+
+fn write_and_describe(a: ArrayRef, nullable: bool, p: &P, cuts: [usize; 2], tr: &mut Shards, cnt: &mut Counters) {
+    let t = &a.data_type().clone();
+    let n = a.len();
     let schema = Arc::new(Schema::new(vec![Field::new("c", t.clone(), nullable)]));
     // the rows go in as one to three batches
-    let cuts = [rng.below(n + 1), rng.below(n + 1)];
     let (c1, c2) = (cuts[0].min(cuts[1]), cuts[0].max(cuts[1]));
     let written = guarded(|| -> Result<Vec<u8>, String> {
         let mut buf = vec![];
@@ -514,7 +553,7 @@ fn arrow_file(rng: &mut Rng, t: &DataType, max_rows: usize, tr: &mut Shards, cnt
         return;
     }
     let cfg = p.describe();
-    let r = guarded(|| describe_column(&bytes, meta.metadata(), meta.schema(), meta.schema().field(0), 0, &cfg, p.stats, tr, cnt));
+    let r = guarded(|| describe_column(&bytes, meta.metadata(), meta.schema(), meta.schema().field(0), 0, &cfg, p.stats, p.trunc_ci.unwrap_or(0), tr, cnt));
     let failure = match r {
         Ok(Ok(())) => None,
         Ok(Err(e)) => Some(e),
@@ -540,10 +579,13 @@ fn main() {
     let mut tr = Shards::create(&args.out, "stats", 14);
     let types = values::types();
     let max_rows = args.scale(24, 60);
-    for round in 0..args.scale(5, 60) {
+    for round in 0..args.scale(8, 60) {
         for t in &types {
             arrow_file(&mut rng, t, if round == 0 { 6 } else { max_rows }, &mut tr, &mut cnt);
         }
+    }
+    for _ in 0..args.scale(2, 20) {
+        directed(&mut rng, &mut tr, &mut cnt);
     }
     for _ in 0..args.scale(60, 1200) {
         lowlevel::byte_array_decimal_file(&mut rng, &mut tr, &mut cnt);
